@@ -200,6 +200,16 @@ Definition roots_ok (c : contract) (sp : signed_prices) (offset length : N) (r :
   ∧ verify_roots (or_pre rr) (or_post rr) (or_roots rr) (num_sectors_up c) offset (offset + length) (v_root (c_view c)) = true
   ∧ host_signed c v' (or_sig rr) = true.
 
+Lemma core_verify_roots_true pre post roots n s e root :
+  vres_ok (core_verify_roots pre post roots n s e root) = true → n ≠ 0 → verify_roots pre post roots n s e root = true.
+Proof.
+  unfold core_verify_roots. intros H Hn. apply N.eqb_neq in Hn. rewrite Hn in H.
+  repeat case_match; simpl in *; done.
+Qed.
+
+Lemma num_sectors_up_ge c : v_filesize (c_view c) / sector_size ≤ num_sectors_up c.
+Proof. unfold num_sectors_up, sector_size. apply N.div_le_mono; lia. Qed.
+
 Lemma roots_inv t c sp offset length r res roots :
   client_roots t c sp offset length r = Ok (res, roots) →
   ∃ v' u rr, roots_ok c sp offset length r v' u rr ∧ res = signed_result c v' (or_sig rr) u ∧ roots = or_roots rr.
@@ -209,7 +219,8 @@ Proof.
   match goal with H : revise_roots _ _ _ = Some (?v, _) |- _ =>
     assert (v_filesize v = v_filesize (c_view c)) as Hfs
       by (unfold revise_roots in H; destruct (pay _ _) eqn:Hp; simplify_eq/=; by apply pay_spec in Hp as (_&_&_&_&_&_&?&_)) end.
-  rewrite Hfs in *. repeat split; try done; lia.
+  rewrite Hfs in *. repeat split; try done; try lia.
+  apply core_verify_roots_true; [done|]. pose proof (num_sectors_up_ge c). lia.
 Qed.
 
 Theorem roots_bound t c sp offset length r res roots rs :
@@ -301,7 +312,8 @@ Lemma free_inv t c p idxs r1 r3 res :
 Proof.
   unfold client_free, free_decide. intros H. destruct r1 as [fr|]; peel; simpl in *; try discriminate.
   boolf. simplify_eq. destruct r3 as [hs|]; [|by match goal with H : is_Some None |- _ => destruct H end].
-  eexists _, _, fr, hs. unfold free_ok. simpl in *. repeat split; done.
+  eexists _, _, fr, hs. unfold free_ok. simpl in *. repeat split; try done.
+  match goal with H : vres_ok (core_verify_free _ _ _ _ _) = true |- _ => unfold core_verify_free in H; repeat case_match; simpl in *; done end.
 Qed.
 
 (** strictly descending *)
@@ -555,6 +567,90 @@ Proof.
     assert (Hsp := signed_result_spec c v' hs (funding_usage (sum_N deps.*2)) (sum_N deps.*2) 0).
     destruct Hsp as [Hsb Hch]; try done; try (unfold funding_usage, renter_cost in *; simpl in *; lia).
     split; [exact Hsb|]. split; [left; exact Hch|done].
+Qed.
+
+(** ** Request validity is a premise of proof verification
+    core's verifiers are total and sound only on a legal request ([core_verify_roots],
+    [core_verify_free]). The client consults them only after its own validation, which
+    establishes exactly that premise. *)
+Theorem roots_verifier_called_inside_its_contract c offset length pre post roots root :
+  length ≠ 0 → offset + length ≤ v_filesize (c_view c) / sector_size → len roots = length →
+  core_verify_roots pre post roots (num_sectors_up c) offset (offset + length) root ≠ VOutside
+  ∧ vres_ok (core_verify_roots pre post roots (num_sectors_up c) offset (offset + length) root)
+    = verify_roots pre post roots (num_sectors_up c) offset (offset + length) root.
+Proof.
+  intros Hl Hr Hn. pose proof (num_sectors_up_ge c) as Hge. unfold core_verify_roots.
+  replace (num_sectors_up c =? 0) with false by (symmetry; apply N.eqb_neq; lia).
+  replace (len roots =? offset + length - offset) with true by (symmetry; apply N.eqb_eq; lia).
+  replace (num_sectors_up c <? offset + length) with false by (symmetry; apply N.ltb_ge; lia).
+  replace (offset + length <=? offset) with false by (symmetry; apply N.leb_gt; lia).
+  simpl. by destruct (verify_roots _ _ _ _ _ _ _).
+Qed.
+
+(** the outcome of the roots verifier is consulted only for a legal request: if the
+    decision depends on it, the range is non-empty, inside the contract, within one
+    batch, and the host sent exactly that many roots *)
+Theorem roots_decision_needs_verifier_only_on_legal_request {R} (v : view R) p auth offset length dec nroots sig_ok :
+  roots_decide v p auth offset length dec nroots true sig_ok ≠ roots_decide v p auth offset length dec nroots false sig_ok →
+  length ≠ 0 ∧ offset + length ≤ v_filesize v / sector_size ∧ length ≤ max_sector_batch ∧ nroots = length.
+Proof.
+  unfold roots_decide. destruct (revise_roots v p length) as [[v' u]|] eqn:Hrev; [|done].
+  assert (v_filesize v' = v_filesize v) as ->
+    by (unfold revise_roots in Hrev; destruct (pay _ _) eqn:Hp; simplify_eq/=; by apply pay_spec in Hp as (_&_&_&_&_&_&?&_)).
+  intros H. repeat (case_match; try done). boolf. repeat split; try done; lia.
+Qed.
+
+Lemma desc_bounded l : ∀ n, desc l → match l with i :: _ => i < n | [] => True end →
+  Forall (λ i, i < n) l ∧ len l ≤ n.
+Proof.
+  induction l as [|x t IH]; intros n Hd Hh; [split; [constructor|unfold len; simpl; lia]|].
+  destruct Hd as [Hlt Hd]. destruct (IH x Hd) as [Hall Hlen].
+  { destruct t; [done|]. by inversion_clear Hlt. }
+  split.
+  - constructor; [done|]. eapply Forall_impl; [exact Hall|]. simpl. lia.
+  - unfold len in *. simpl. lia.
+Qed.
+
+Theorem free_verifier_called_inside_its_contract n old idxs oldroot newroot :
+  match normalize idxs with i :: _ => i < n | [] => True end →
+  core_verify_free n old (normalize idxs) oldroot newroot ≠ VOutside
+  ∧ vres_ok (core_verify_free n old (normalize idxs) oldroot newroot) = verify_free n old (normalize idxs) oldroot newroot.
+Proof.
+  intros Hh. destruct (desc_bounded _ n (normalize_desc idxs) Hh) as [Hall Hlen]. unfold core_verify_free.
+  replace (n <? len (normalize idxs)) with false by (symmetry; apply N.ltb_ge; lia).
+  replace (forallb (λ i, i <? n) (normalize idxs)) with true.
+  - simpl. by destruct (verify_free _ _ _ _ _).
+  - symmetry. apply forallb_forall. intros i Hi%elem_of_list_In. rewrite Forall_forall in Hall. apply N.ltb_lt. auto.
+Qed.
+
+Theorem free_decision_needs_verifier_only_on_legal_request {R} (v : view R) p idxs dec1 newroot dec3 sig_ok :
+  free_decide v p idxs dec1 newroot true dec3 sig_ok ≠ free_decide v p idxs dec1 newroot false dec3 sig_ok →
+  match idxs with i :: _ => i < v_filesize v / sector_size | [] => True end.
+Proof.
+  unfold free_decide. destruct idxs as [|i t]; [done|]. intros H. repeat (case_match; try done). by boolf.
+Qed.
+
+Theorem verifiers_consulted_only_inside_their_contract :
+  (∀ R (v : view R) p auth offset length dec nroots sig_ok,
+     roots_decide v p auth offset length dec nroots true sig_ok ≠ roots_decide v p auth offset length dec nroots false sig_ok →
+     length ≠ 0 ∧ offset + length ≤ v_filesize v / sector_size ∧ length ≤ max_sector_batch ∧ nroots = length)
+  ∧ (∀ c offset length pre post roots root,
+     length ≠ 0 → offset + length ≤ v_filesize (c_view c) / sector_size → len roots = length →
+     core_verify_roots pre post roots (num_sectors_up c) offset (offset + length) root ≠ VOutside
+     ∧ vres_ok (core_verify_roots pre post roots (num_sectors_up c) offset (offset + length) root)
+       = verify_roots pre post roots (num_sectors_up c) offset (offset + length) root)
+  ∧ (∀ R (v : view R) p idxs dec1 newroot dec3 sig_ok,
+     free_decide v p idxs dec1 newroot true dec3 sig_ok ≠ free_decide v p idxs dec1 newroot false dec3 sig_ok →
+     match idxs with i :: _ => i < v_filesize v / sector_size | [] => True end)
+  ∧ (∀ n old idxs oldroot newroot,
+     match normalize idxs with i :: _ => i < n | [] => True end →
+     core_verify_free n old (normalize idxs) oldroot newroot ≠ VOutside
+     ∧ vres_ok (core_verify_free n old (normalize idxs) oldroot newroot) = verify_free n old (normalize idxs) oldroot newroot).
+Proof.
+  split; [intros R; exact (@roots_decision_needs_verifier_only_on_legal_request R)|].
+  split; [exact roots_verifier_called_inside_its_contract|].
+  split; [intros R; exact (@free_decision_needs_verifier_only_on_legal_request R)|].
+  exact free_verifier_called_inside_its_contract.
 Qed.
 
 (** ** Forming, renewing, refreshing: the returned contract is the signed contract *)
@@ -993,5 +1089,25 @@ Section ContractExamples.
   Proof. vm_compute. reflexivity. Qed.
   Example ex_renew_peer_signs : client_renew 9 c0 mine 55 true 300 451 (Some 300)
     (Some (mk_renew_final 1 [ResRenewal (mk_contract_obj 1 2 mine (Sig 2 (MRev 1 2 mine)) (Sig 9 (MRev 1 2 mine))) 55 (Sig 9 (MRenewal 1 2 mine 55))])) = Err.
+  Proof. vm_compute. reflexivity. Qed.
+  (** outside their contract core's verifiers are not sound and not total: the empty contract
+      accepts any roots with an empty proof, an illegal range panics (seed C10-g) *)
+  Example ex_core_roots_empty_contract_accepts_anything :
+    core_verify_roots [] [] [SX 7; SX 8] 0 0 2 (CX 0) = VTrue ∧ verify_roots [] [] [SX 7; SX 8] 0 0 2 (CX 0) = false.
+  Proof. split; vm_compute; reflexivity. Qed.
+  Example ex_core_roots_beyond_contract_panics : core_verify_roots [SX 1] [] [SX 5; SX 6; SX 9] 6 4 7 (CR rs) = VOutside.
+  Proof. vm_compute. reflexivity. Qed.
+  Example ex_core_roots_zero_length_panics : core_verify_roots [SX 1] [] [] 6 1 1 (CR rs) = VOutside.
+  Proof. vm_compute. reflexivity. Qed.
+  Example ex_core_free_more_indices_than_sectors : core_verify_free 2 [SX 1; SX 2] [3; 2; 1; 0] (CR [SX 1; SX 2]) (CR []) = VOutside.
+  Proof. vm_compute. reflexivity. Qed.
+  (* and the client never gets there *)
+  Let empty_view : view croot := mk_view 8 0 0 (CX 0) 1000000000000000000000000000 300000000000000000000000000 250000000000000000000000000 1144.
+  Let c_empty := mk_contract empty_view 1 2 (Sig 2 (MRev 1 2 empty_view)) (Sig 1 (MRev 1 2 empty_view)).
+  Example ex_roots_of_empty_contract_rejected : client_roots 9 c_empty spr 0 2
+      (Some (mk_roots_resp [] [] [SX 7; SX 8] (Sig 1 (MRev 1 2 (fst_or (revise_roots empty_view pr 2) empty_view))))) = Err.
+  Proof. vm_compute. reflexivity. Qed.
+  Example ex_roots_beyond_contract_rejected : client_roots 9 c0 spr 4 3
+      (Some (mk_roots_resp [SX 1] [] [SX 5; SX 6; SX 9] (Sig 1 (MRev 1 2 v_roots)))) = Err.
   Proof. vm_compute. reflexivity. Qed.
 End ContractExamples.
